@@ -553,7 +553,15 @@ class Type4ATag(Type4Tag):
         rats_res = self.clf.exchange(rats_cmd, timeout=0.03)
         log.debug("rcvd RATS response: {0}".format(hexlify(rats_res).decode()))
 
-        fsci, fwti = rats_res[1] & 0x0F, rats_res[3] >> 4
+        # T0 tells which of TA(1), TB(1), TC(1) follow; without T0 or
+        # TB(1) the default values FSCI 2 and FWI 4 apply.
+        fsci, fwti = 2, 4
+        if len(rats_res) > 1:
+            fsci = rats_res[1] & 0x0F
+            if rats_res[1] & 0x20:
+                tb1_index = 3 if rats_res[1] & 0x10 else 2
+                if len(rats_res) > tb1_index:
+                    fwti = rats_res[tb1_index] >> 4
         if fsci > 8:
             log.warning("FSCI with RFU value in RATS_RES")
             fsci = 8
